@@ -139,7 +139,16 @@ func ControlChangeEvent(channel, function, value uint8) Event {
 
 // PitchBendEvent accepts a value in range -1.0 to 1.0
 func PitchBendEvent(channel uint8, val float64) Event {
-	target := int(float64((1<<14)-1) * ((val + 1.0) / 2.0)) // valid 14-bit pitch-bend range
+	// valid 14-bit pitch-bend range, 8192 is the centre (no pitch change)
+	var target int
+	if val >= 0 {
+		target = 8192 + int(val*8191)
+	} else {
+		target = 8192 + int(val*8192)
+	}
+	if target < 0 {
+		target = 0
+	}
 	msb := uint8((target >> 7) & 0b01111111)                // filtering bit that is beyond valid pitch-bend range when val>1.0, just in case
 	lsb := uint8(target & 0b01111111)                       // filtering out one bit of msb, feels good man
 	return Event{PitchWheelChange | channel, lsb, msb}
